@@ -267,8 +267,12 @@ class C14(scen.PairProp):
             # rounding error on the other side of it)
             if abs(len(A) - len(B)) > 1:
                 return f"clock origin moved by {req['shift']}: {len(A)} strikes became {len(B)}"
+            # (doubles at an epoch of 1e9 s carry 2e-7 s, and the implementation's fit - uncentred normal equations -
+            # multiplies that by its condition number, some hundreds after a dozen rows of scattered strikes: half a
+            # millisecond is rounding there, not a dependence on the origin; a real one shows as milliseconds to seconds)
+            tol = 5e-5 if abs(req["shift"]) < 1e8 else 5e-4
             for (ta, ba, ha), (tb, bb, hb) in zip(A, B):
-                if ba != bb or abs((tb - req["shift"]) - ta) > 5e-5:
+                if ba != bb or abs((tb - req["shift"]) - ta) > tol:
                     return (f"clock origin moved by {req['shift']}: bell {ba} at offset {ta - req['t0']:.6f} became bell "
                             f"{bb} at {tb - req['shift'] - req['t0']:.6f}")
             return None
